@@ -422,9 +422,9 @@ theorem allLit_of_not_hasBrace (t : List Part) (h : hasBrace t = false) : t.all 
     | lit v => simp only [hasBrace_cons_lit] at h; simp [ih h]
     | brace s e => simp at h
 
-/-- The split of the text of a canonical tree is the tree itself, up to an empty trailing `Lit`. -/
+/-- The split of the text of a canonical tree with a brace expression is the tree itself. -/
 theorem split_canon (t : List Part) (hc : canon t = true) (hb : hasBrace t = true) :
-    (splitBraces (render t)).1 = t ∨ (splitBraces (render t)).1 = t ++ [.lit []] := by
+    splitBraces (render t) = (t, true) := by
   unfold splitBraces
   rw [if_neg (by simpa using mem_render_of_hasBrace t hb)]
   have hscan := scanWord t hc ⟨[], []⟩ [] []
@@ -433,52 +433,22 @@ theorem split_canon (t : List Part) (hc : canon t = true) (hb : hasBrace t = tru
   have hst := feed_stack_nil t ⟨[], []⟩ [] rfl
   have hff := feed_flush t hc ⟨[], []⟩ [] (Or.inl rfl)
   rw [flush_nil] at hff
-  generalize feed ⟨[], []⟩ [] t = res at hst hff
-  obtain ⟨st, pend⟩ := res
-  simp only at hst hff ⊢
   have htop : (St.addParts ⟨[], []⟩ t) = ⟨t, []⟩ := by simp [St.addParts]
   rw [htop] at hff
-  by_cases hp : pend = []
-  · subst hp
-    rw [flush_nil] at hff
-    subst hff
-    right
-    simp [St.add, St.addParts, unwind]
-  · rw [flush_ne_nil _ _ hp] at hff
-    left
-    rw [hff]
-    simp [unwind]
+  rw [hff]
+  simp [unwind, hb]
 
-theorem noOv_snoc_lit (t : List Part) (v : Bytes) : noOv (t ++ [.lit v]) = noOv t := by
-  simp [noOv_append]
-
-theorem denot_snoc_empty (t : List Part) : denot (t ++ [.lit []]) = denot t := by
-  rw [denot_append]
-  simp
-
-/-- Denotation and overflow-freedom of the split of a canonical tree's text. -/
+/-- Denotation of the split of a canonical tree's text. -/
 theorem split_canon_denot (t : List Part) (hc : canon t = true) :
-    denot (splitBraces (render t)).1 = denot t ∧
-    noOv (splitBraces (render t)).1 = noOv t := by
+    denot (splitBraces (render t)).1 = denot t := by
   cases hb : hasBrace t with
-  | true =>
-    rcases split_canon t hc hb with h | h
-    · rw [h]; exact ⟨rfl, rfl⟩
-    · rw [h]; exact ⟨denot_snoc_empty t, noOv_snoc_lit t []⟩
+  | true => rw [split_canon t hc hb]
   | false =>
     have hnm := not_mem_render_of_lits t hc hb
     have hall := allLit_of_not_hasBrace t hb
     unfold splitBraces
     rw [if_pos hnm]
     simp only
-    refine ⟨?_, ?_⟩
-    · rw [denot_allLit t hall]; simp [cross_single_left]
-    · clear hnm hc hall
-      induction t with
-      | nil => simp
-      | cons p ps ih =>
-        cases p with
-        | lit v => simp only [hasBrace_cons_lit] at hb; simpa using ih hb
-        | brace s e => simp at hb
+    rw [denot_allLit t hall]; simp [cross_single_left]
 
 end ShVerif.C16
